@@ -64,7 +64,7 @@ func TestC26(t *testing.T) {
 			case "TE":
 				vals = rapid.SampledFrom([][]string{{"trailers"}, {"gzip"}, {"trailers, gzip"}, {"trailers", "gzip"}, {"gzip", "trailers"}, {"deflate;q=0.5"}}).Draw(rt, "te")
 			case "Upgrade":
-				vals = rapid.SampledFrom([][]string{{"h2c"}, {"foo/2"}, {"", "h2c"}}).Draw(rt, "upg")
+				vals = rapid.SampledFrom([][]string{{"h2c"}, {"foo/2"}, {"", "h2c"}, {"websocket"}, {"WebSocket"}, {"websocket, h2c"}}).Draw(rt, "upg")
 			case "Keep-Alive":
 				vals = rapid.SampledFrom([][]string{{"timeout=5, max=100"}, {"", "timeout=5"}}).Draw(rt, "ka")
 			case "Trailer":
@@ -117,10 +117,21 @@ func TestC26(t *testing.T) {
 		for _, h := range perm {
 			fmt.Fprintf(&sb, "%s: %s\r\n", h.Name, h.Value)
 		}
-		body := ""
+		body, payload := "", ""
 		if method == "POST" {
-			body = "abcde"
-			fmt.Fprintf(&sb, "Content-Length: %d\r\n", len(body))
+			body, payload = "abcde", "abcde"
+			switch framing := rapid.SampledFrom([]string{"content-length", "chunked", "chunked+trailer-part"}).Draw(rt, "framing"); framing {
+			case "content-length":
+				fmt.Fprintf(&sb, "Content-Length: %d\r\n", len(body))
+			case "chunked":
+				sb.WriteString("Transfer-Encoding: chunked\r\n")
+				body = "5\r\nabcde\r\n0\r\n\r\n"
+				classes = append(classes, "chunked-request")
+			default:
+				sb.WriteString("Transfer-Encoding: chunked\r\n")
+				body = "5\r\nabcde\r\n0\r\nX-Sum: 99\r\n\r\n"
+				classes = append(classes, "chunked-request", "trailer-part-sent")
+			}
 		}
 		sb.WriteString("\r\n" + body)
 		raw := sb.String()
@@ -161,7 +172,7 @@ func TestC26(t *testing.T) {
 			for _, h := range perm {
 				hf = append(hf, sys.H2Field{strings.ToLower(h.Name), h.Value})
 			}
-			res, _ := cl.Request(hf, []byte(body), 5*time.Second)
+			res, _ := cl.Request(hf, []byte(payload), 5*time.Second)
 			cl.Close()
 			if res != nil && res.Status == "200" {
 				status = 200
@@ -175,7 +186,7 @@ func TestC26(t *testing.T) {
 			for _, h := range perm {
 				hh[strings.ToLower(h.Name)] = append(hh[strings.ToLower(h.Name)], h.Value)
 			}
-			res, _ := cl.Request(hh, []byte(body), 5*time.Second)
+			res, _ := cl.Request(hh, []byte(payload), 5*time.Second)
 			cl.Close()
 			if res != nil && res.Header != nil && strings.HasPrefix(res.Header.Get(":status"), "200") {
 				status = 200
@@ -220,7 +231,8 @@ func TestC26(t *testing.T) {
 				}
 			}
 		}
-		ownChunked := front != "h1" && body != "" // no Content-Length on h2/spdy: BFE frames the body chunked itself
+		// no Content-Length on h2/spdy, or a chunked h1 request: BFE frames the forwarded body chunked itself
+		ownChunked := (front != "h1" && body != "") || (front == "h1" && body != payload)
 		if v, ok := bf["transfer-encoding"]; ok && !(ownChunked && len(v) == 1 && v[0] == "chunked") {
 			if !rec.Fail(rt, "transfer-encoding-forwarded", wit, "Transfer-Encoding reached the backend for a request without chunked body: %q", v) {
 				return
